@@ -66,6 +66,14 @@ checks = {
    text="complete Cartesian enumeration of block size (1-8/9) x relevant subset x corruption/fault kind x position through the real BlockDownloader.HandleBlock with a recording processor/store: confirmation-stage calls occur only for the requested header with full count and matching merkle root and no earlier fault; then exactly coinbase, the relevant occurrences in block order with proofs that verify (also recomputed by an independent merkle implementation), the txid record last; Complete is nil iff all of it happened",
    note="HandleBlock driven directly with a pre-filled closed channel (sequential); interleavings are C16; the node-side framing leg is covered by the C14/C15 checks",
    tech="bounded-exhaustive input and fault-position enumeration on the implementation against a reference"),
+ "C06": dict(engine="schedmc", cat="model_checking", ref="DESIGN.md 4, 7 C06",
+   text="the real TxManager (AddTxID, AddTx, GetTxRequests, Run) instrumented by source rewriting and run under a controlled scheduler: for every pair of peer scripts over {announce, deliver} of length <= 2 (and 3 peers / 2 transactions / retry polls after a virtual-clock advance past the request timeout), all interleavings up to preemption bound 2 (1 for the retry-poll scenarios) are executed; every execution's call/return history must be linearizable (porcupine) against a map model of 'request from exactly one announcer per timeout window, retry per announcer after the timeout, never after delivery', and the processor / saver must have seen each delivered transaction exactly once",
+   note="interleavings at synchronisation operations (sequential consistency); preemption-bounded; virtual time; retry polls complete to bound 1 because one poll is ~520 scheduling points; the end-to-end inv->getdata->tx wire leg is exercised by the C13/C14 message-history checks, not here",
+   tech="stateless model checking of the implementation: exhaustive enumeration of thread schedules under a hand-written cooperative scheduler (iterative preemption bounding, happens-before state caching), linearizability checking of every execution"),
+ "C16": dict(engine="schedmc", cat="model_checking", ref="DESIGN.md 4, 7 C16",
+   text="the real BlockDownloader and BlockManager (and the threads library) instrumented by source rewriting and run under a controlled scheduler. Layer 1: downloader.Run + a node actor following the BlockRequestor/Canceller contract (block of 0-2 transactions, wrong hash, processor error, short stream, no delivery) + every subset of {manager Cancel, peer Stop, shutdown interrupt}; layer 3: BlockManager.Run with 1-2 queued requests, concurrency 1-3, scripted nodes that deliver / deliver slowly / drop / stay silent / are unavailable, abort and interrupt at any time. All interleavings up to preemption bound 2 (manager scenarios with abort/interrupt: bound 0-1). Oracles: no deadlock (the scheduler knows exactly who waits on what), no unbounded polling (step horizon), Run returns, exactly one terminal signal per request, downloader list empty at quiescence, completion only after a recorded successful download, no double processing",
+   note="layer 2 of the design (real BitcoinNode.RequestBlock/CancelBlockRequest/handleBlock under the scheduler) is replaced by the node-contract actor, whose 'registered but handler never started' case reproduces the real node's window; runs that end only through a virtual timeout are listed as outcomes (via-timeout), not alarmed",
+   tech="stateless model checking of the implementation: exhaustive enumeration of thread schedules under a hand-written cooperative scheduler (iterative preemption bounding, happens-before state caching)"),
  "C20": dict(engine="peermc", cat="model_checking", ref="DESIGN.md 6, 7 C20",
    text="BFS over all histories of Add/UpdateScore/UpdateTime/Save/Load/Clear (2-5 addresses incl. empty, 300-byte, non-ASCII, IPv6; deltas +-1,+-5) on the real StoragePeerRepository against a map model, all 36 Get(min,max) ranges and Count compared in every state; every prefix of every saved file reached is loaded; 17 structured arbitrary file contents (bad version, negative / huge counts and lengths, duplicates, garbage) are loaded in worker subprocesses under an address-space limit",
    note="sequential callers in this check (the concurrent part is explored separately); last-seen times are wall-clock and only checked to lie inside the call window; atomic single-key storage",
@@ -95,11 +103,12 @@ kinds = {
  "powenum": "complete enumeration of difficulty-algorithm inputs, compact-bits encodings and real-chain mutations through the real headers package",
  "blkenum": "complete enumeration of block contents x corruptions x fault positions through the real BlockDownloader.HandleBlock",
  "peermc": "explicit-state BFS over operation histories on the real StoragePeerRepository against a map model; file-prefix enumeration; arbitrary-content loads in limited worker subprocesses",
+ "schedmc": "source-rewriting instrumentation (cmd/instr) + cooperative scheduler (vsched): every interleaving of the real goroutines up to a preemption bound, virtual time, deadlock / livelock detection",
  "netmc": "explicit-state BFS over wire-message histories delivered to a real BitcoinNode on an in-memory connection (ping barrier per message, hooked node dump as state key); hostile-input enumeration in worker processes",
  "hdrmc": "explicit-state BFS over operation histories on the real headers.Repository; exact state de-duplication; reference block-tree model; crash-point enumeration",
 }
 setup = f"cd /verif && {GO} && mkdir -p .build && " + " && ".join(
-    f"go build -tags verif -o .build/{e} ./cmd/{e}" for e in sorted(engines))
+    (f"go build -tags verif -o .build/{e} ./cmd/{e}" if e != "schedmc" else "bin/build-schedmc") for e in sorted(engines))
 
 m = {
  "version": 1,
